@@ -124,6 +124,19 @@ fixed("C12", "C12:cursor-left-hidden", "4939ad5",
       [{"kind": "full", "cfg": {"hide_cursor": False}, "body": [["render", 0, [1, 1]], ["render", 1, [0, 0]]],
         "tty": "cooked", "crash": ["line", k]} for k in (20, 54, 80)])
 
+fixed("C08", "C08:equal-scheduled-times", "bb8b101",
+      "two scheduled events with equal times made every later request raise TypeError (sort of (when, event) tuples)",
+      [{"kind": "seq", "paste_threshold": None, "sigint_event": False,
+        "script": [["sched", -1.0], ["sched_equal"], ["req", 0], ["req", 0], ["req", 0]]}])
+fixed("C08", "C08:non-paste-path-does-not-refill", "d1ecc9e",
+      "outside a paste a keypress straddling the 1024-byte read was decoded in two halves (ValueError / ESC + loose characters)",
+      [{"kind": "names", "mode": "curtsies", "paste_threshold": None,
+        "bursts": [B((b"a" * 1023 + "一".encode() + b"bcd").hex())]},
+       {"kind": "names", "mode": "curtsies", "paste_threshold": 5000,
+        "bursts": [B((b"a" * 1023 + b"\x1b[4h" + b"bcd").hex())]},
+       {"kind": "seq", "paste_threshold": None, "sigint_event": False,
+        "script": [["write", B((b"a" * 1022 + "😀".encode() + b"xyz").hex())]] + [["req", 0]] * 5}])
+
 known("C03", "C03:prefix-then-undecodable-byte",
       "get_key raises UnicodeDecodeError for a table-sequence prefix (e.g. ESC) followed by a byte >= 0x80 "
       "that does not decode: ESC + any 8-bit byte under ascii, ESC + a UTF-8 lead/continuation byte under utf-8",
